@@ -2,8 +2,9 @@
 (* Semantics of the PTG program family harness/ptgdist/distfan.jdf (property C05).
    A configuration g is a record [np, w1, nq, s, nodes, pmul, poff]:
      P(k), k < np        RW X <- A(k)            -> U C(k*w1 .. k*w1+w1-1), -> A(k)
+                         RW X2 <- A(x2base+k)    -> U2 C(k*w1 .. k*w1+w1-1), -> A(x2base+k)   (same remote destinations as X)
      Q(k), k < nq        RW Y <- A(np+k)         -> V C(m) for m = s*k, s*k + s*nq, ... < nc, -> A(np+k)
-     C(m), m < nc        READ U <- X P(m / w1) ; READ V <- (m % s = 0) ? Y Q((m/s) % nq) : NULL
+     C(m), m < nc        READ U <- X P(m / w1) ; READ U2 <- X2 P(m / w1) ; READ V <- (m % s = 0) ? Y Q((m/s) % nq) : NULL
                          RW Z <- A(np+nq+m)      -> Z D(m), -> A(np+nq+m)
      D(m), m < nc        READ Z <- Z C(m) ; RW T <- (m = 0) ? A(np+nq+nc) : T D(m-1)
                                                  -> (m < nc-1) ? T D(m+1) : A(np+nq+nc+m)
@@ -15,7 +16,8 @@ F(x, j, k) == (x * 31 + j * 7 + k * 13 + 5) % Mod
 G(z, u, v, m) == (z * 17 + u * 3 + v * 5 + m * 11 + 1) % Mod
 
 NC(g) == g.np * g.w1
-NA(g) == g.np + g.nq + 2 * NC(g)
+X2Base(g) == ((g.np + g.nq + 2 * NC(g) + g.nodes - 1) \div g.nodes) * g.nodes   \* elements of P's second flow: X2Base+k lives where A(k) lives
+NA(g) == X2Base(g) + g.np
 T(c, k) == [c |-> c, k |-> k]
 Tasks(g) == {T("P", k) : k \in 0..(g.np - 1)} \cup {T("Q", k) : k \in 0..(g.nq - 1)}
             \cup {T("C", m) : m \in 0..(NC(g) - 1)} \cup {T("D", m) : m \in 0..(NC(g) - 1)}
@@ -27,6 +29,7 @@ Elem(g, t) == CASE t.c = "P" -> t.k
 Owner(g, i) == (i * g.pmul + g.poff) % g.nodes
 Place(g, t) == Owner(g, Elem(g, t))
 A0(i) == 1000 + i
+X2Val(g, k) == F(A0(X2Base(g) + k), 3, k)      \* what P(k) writes on its second flow (a function of the initial value only)
 
 UsesQ(g, m) == m % g.s = 0
 QOf(g, m) == T("Q", (m \div g.s) % g.nq)
@@ -34,19 +37,22 @@ Preds(g, t) == CASE t.c \in {"P", "Q"} -> {}
                  [] t.c = "C" -> {T("P", t.k \div g.w1)} \cup (IF UsesQ(g, t.k) THEN {QOf(g, t.k)} ELSE {})
                  [] t.c = "D" -> {T("C", t.k)} \cup (IF t.k = 0 THEN {} ELSE {T("D", t.k - 1)})
 \* the three values a task body reads, given the outputs `out` of the tasks that already ended
-In(g, t, out) == CASE t.c = "P" -> <<A0(t.k), 0, 0>>
-                   [] t.c = "Q" -> <<A0(g.np + t.k), 0, 0>>
+In(g, t, out) == CASE t.c = "P" -> <<A0(t.k), A0(X2Base(g) + t.k), 0, 0>>
+                   [] t.c = "Q" -> <<A0(g.np + t.k), 0, 0, 0>>
                    [] t.c = "C" -> <<A0(g.np + g.nq + t.k), out[T("P", t.k \div g.w1)],
-                                     IF UsesQ(g, t.k) THEN out[QOf(g, t.k)] ELSE 0>>
-                   [] t.c = "D" -> <<IF t.k = 0 THEN A0(g.np + g.nq + NC(g)) ELSE out[T("D", t.k - 1)], out[T("C", t.k)], 0>>
+                                     IF UsesQ(g, t.k) THEN out[QOf(g, t.k)] ELSE 0, X2Val(g, t.k \div g.w1)>>
+                   [] t.c = "D" -> <<IF t.k = 0 THEN A0(g.np + g.nq + NC(g)) ELSE out[T("D", t.k - 1)], out[T("C", t.k)], 0, 0>>
 Out(t, in) == CASE t.c = "P" -> F(in[1], 1, t.k)
                 [] t.c = "Q" -> F(in[1], 2, t.k)
-                [] t.c = "C" -> G(in[1], in[2], in[3], t.k)
+                [] t.c = "C" -> G(in[1], in[2], in[3] + 7 * in[4], t.k)
                 [] t.c = "D" -> G(in[1], in[2], 0, t.k)
 \* elements with a declared write-back, and the task whose output they finally hold
-HasFinal(g, i) == i < g.np + g.nq + NC(g) \/ i = NA(g) - 1
+HasFinal(g, i) == i < g.np + g.nq + NC(g) \/ i = g.np + g.nq + 2 * NC(g) - 1 \/ i >= X2Base(g)
 Writer(g, i) == IF i < g.np THEN T("P", i)
                 ELSE IF i < g.np + g.nq THEN T("Q", i - g.np)
                 ELSE IF i < g.np + g.nq + NC(g) THEN T("C", i - g.np - g.nq)
-                ELSE T("D", NC(g) - 1)
+                ELSE IF i < X2Base(g) THEN T("D", NC(g) - 1)
+                ELSE T("P", i - X2Base(g))
+\* final value of element i given the outputs
+FinalVal(g, i, outOf(_)) == IF i >= X2Base(g) THEN X2Val(g, i - X2Base(g)) ELSE outOf(Writer(g, i))
 ========================================================================
